@@ -10,8 +10,8 @@
    (that needs the full code-generator model, DESIGN.md C01 Layer C).  That part is decided per explored
    program by running the extracted monitor on the real compiler's binary (tools/c08.py): translation
    validation, with the validator's soundness proved here. *)
-From Coq Require Import ZArith List Lia.
-From HexVerif Require Import WMap Isa IsaMon IsaMonProofs XAst XSem XCodegenIsa XCodegenInv XCodegenExpr XCodegenStmt.
+From Coq Require Import ZArith List String Lia.
+From HexVerif Require Import WMap Isa IsaMon IsaMonProofs XAst XSem XCodegenIsa XCodegenInv XCodegenExpr XCodegenStmt XCodegenCall.
 Import ListNotations.
 Local Open Scope Z_scope.
 
@@ -69,8 +69,8 @@ Print Assumptions C08_validated_run_partial.
    every f) and of C01_stmt_calls_partial (procedure-call statements, relative to the callees' specification; then
    the free stack Fr below the frame counts as scratch: that is where callees put their frames).
    Missing for C08_full: the clauses for every intermediate access (this is the net effect between statement
-   boundaries; the per-access clauses are decided per program by the monitor, C08_monitor_sound), procedure calls
-   (prologue/epilogue balance across a call), and the entry/exit stub. *)
+   boundaries; the per-access clauses are decided per program by the monitor, C08_monitor_sound), function calls
+   (procedure calls: (6)), and the entry/exit stub. *)
 Theorem C08_frame_discipline_partial :
   forall pinfo Fr Dq venv pool size nslots off0 og exitl ge P m0 lab sp f,
     stmt_ok pinfo Fr Dq venv pool size nslots off0 og exitl ge P m0 lab sp f ->
@@ -85,6 +85,50 @@ Theorem C08_frame_discipline_partial :
       (forall x, 0 <= x -> ~ scratch Fr size nslots off0 og sp x -> ~ var_word venv sp x -> rd m' x = rd m x).
 Proof. exact frame_discipline. Qed.
 Print Assumptions C08_frame_discipline_partial.
+
+(* (6) PARTIAL: prologue/epilogue balance and the frame discipline ACROSS a procedure call, in the setting of
+   Properties_C01.C01_calls_partial (simple procedures: value formals, var locals, no shadowing of globals; code =
+   prologue ++ body ++ exit label ++ epilogue before the peepholes; globals below stack_lo; stack budget
+   stack_lo + (maxdepth - depth) * maxframe <= sp in Rel).  When control is at the entry label of a procedure of the
+   table with the link address in areg and the actuals in the caller's outgoing words, and XSem's `invoke` returns
+   (any fuel, any nesting and recursion below it), then the machine comes back to the link address, and at that
+   point the stack-pointer word mem[1] holds what it held before the call (the callee's prologue and epilogue
+   balance, and so do those of everything it called), no protected word (code, constant pool) has changed, and every
+   other changed word lies in the caller's temporaries, its outgoing area [sp, sp+og), the free stack
+   [stack_lo, sp) below its frame (where the callee's frames were), or is the word of a variable in the caller's
+   scope.  In particular the callee did not write the caller's locals, formals, or anything above the caller's
+   frame, and never went below stack_lo.
+   Missing for C08_full: function calls, the per-access form of the clauses inside the callee (net effect at the
+   return only; per access: the monitor), array/proc formals, the entry/exit stub. *)
+Theorem C08_call_discipline_partial :
+  forall (ge : genv) (gaddr : string -> option Z) (pool : Z -> option Z) (P : Z -> Prop) (m0 : WMap.t)
+         (lab : label -> Z) (pinfo : string -> option pframe) (lay : string -> option playout) (stack_lo maxframe : Z),
+    (forall p pi, pinfo p = Some pi ->
+       pf_isfunc pi = false /\ 0 <= lab (pf_entry pi) /\
+       exists pr fn ln L bc n' endp,
+         find_proc p (g_procs ge) = Some pr /\ lay p = Some L /\ simple_proc gaddr pr fn ln /\ numbers_ok maxframe pr L /\
+         cs pinfo (frame_venv gaddr pr (pl_size L)) pool (pl_size L) (pl_nslots L) (first_temp pr) (pl_og L) (pl_exit L)
+            (body pr) (pl_n0 L) = Some (bc, n') /\
+         code_at (C P m0) lab (lab (pf_entry pi)) (pro (pl_size L) ++ bc ++ epi (pl_exit L) (pl_size L)) endp /\ endp < W) ->
+    (forall x a, gaddr x = Some a -> in_mem a = true /\ ~ P a /\ a <> 1 /\ a < stack_lo /\ assoc x (g_vals ge) = None) ->
+    (forall x y a b, gaddr x = Some a -> gaddr y = Some b -> x <> y -> a <> b) ->
+    1 < stack_lo /\ (forall a, stack_lo <= a < MEMW -> ~ P a) ->
+    ~ P 1 ->
+    (forall v a, pool v = Some a -> P a /\ in_mem a = true /\ rd m0 a = v mod W) ->
+    (forall p pi st n, pinfo p = Some pi -> call_target ge p st <> TSys n) ->
+    0 <= maxframe ->
+    forall f pr fn ln L sp, frame_ok gaddr stack_lo maxframe pr fn ln L sp ->
+    forall p pi vs st v st' m link b inp, pinfo p = Some pi ->
+      Rel (Dq_of ge stack_lo maxframe sp) (frame_venv gaddr pr (pl_size L)) ge P m0 sp st m ->
+      args_stored sp vs 1 m -> Z.of_nat (List.length vs) + 1 <= pl_og L -> 0 <= link < W ->
+      invoke (exec f ge) ge false p vs st = Ret v st' ->
+      exists evs a' b' m', runs inp (mk (lab (pf_entry pi)) link b 0 m) evs inp (mk link a' b' 0 m') /\
+        rd m' 1 = rd m 1 /\ (forall x, 0 <= x -> P x -> rd m' x = rd m x) /\
+        (forall x, 0 <= x ->
+           ~ scratch (Fr_of stack_lo sp) (pl_size L) (pl_nslots L) (first_temp pr) (pl_og L) sp x ->
+           ~ var_word (frame_venv gaddr pr (pl_size L)) sp x -> rd m' x = rd m x).
+Proof. exact call_discipline. Qed.
+Print Assumptions C08_call_discipline_partial.
 
 (* Non-vacuity.  The image the repaired xcmp emits for `proc main() is skip` (5 words; data word 1 = stack
    pointer 199997; _exit at byte 10) is accepted by the monitor for its whole run (11 instructions), so the
